@@ -142,7 +142,9 @@ def apply_op(m, o):
         m.set_initial_population({n: expr(e) for n, e in o["dist"].items()})
     elif k == "arraypop":
         arr = [expr(e) for e in o["arr"]]
-        if all(isinstance(e, float) for e in arr):
+        if o.get("int_array") and all(isinstance(e, float) and e == int(e) for e in arr):
+            m.init_population_with_graphobject(np.array([int(e) for e in arr]))      # an integer-typed array: still a population
+        elif all(isinstance(e, float) for e in arr):
             m.init_population_with_graphobject(np.array(arr))
         else:
             m.init_population_with_graphobject(capture_array(arr))
@@ -195,6 +197,8 @@ def apply_op(m, o):
             m.request_cumulative_output(name, r["source"], start_time=None if st is None else num(st), save_results=save)
         elif t == "func":
             srcs = [DerivedOutput(s) for s in r["sources"]]
+            if r.get("wrap"):
+                srcs = [s_ * 1.0 for s_ in srcs]       # the same series, referenced inside an expression
             ps = [expr(e) for e in r.get("params", [])]
             fn = int(r["fn"])
             if fn == 0:
